@@ -264,7 +264,9 @@ def impl(case):
         src = [tuple(p) for p in case[1]]
         keep = list(src)
         mm, q, f = MultiMapping(src), QueryParams(src), FormData(src)
-        m = MutableMultiMapping(src)
+        # (in every other case the mutable one is built from a sibling mapping instead of the list: the sibling it was
+        # built from must stay what it was as well)
+        m = MutableMultiMapping((mm, q, f)[len(case[2]) % 3] if (len(case[1]) + len(case[2])) % 2 else src)
         for o in case[2]:
             apply_op(m, o)
         out = [views(mm), views(q), views(f)]
